@@ -358,7 +358,11 @@ class Sym:
                 nm = p[0][2]
                 if nm.startswith("_ref__"):
                     nm = nm[len("_ref__"):]
-                base = ("upvar", nm)
+                # disjoint field capture (edition 2021): `word__whitespace` is `word.whitespace`
+                parts = nm.split("__")
+                base = ("upvar", parts[0])
+                for fld in parts[1:]:
+                    base = ("field", base, fld)
                 return self.project(base, p[1:], None)
             return ("param", 1, "<env>")
         name = body.arg_names.get(l) or body.local_names.get(l) or ("_%d" % l)
